@@ -2,6 +2,7 @@ package c42
 
 import (
 	"bytes"
+	"encoding/hex"
 	"fmt"
 	"math/big"
 	"math/rand"
@@ -30,7 +31,8 @@ type step struct {
 
 var neoKinds = []string{
 	"ont-transfer", "ont-transfer-unsigned", "ont-transfer-user", "ong-transfer", "ont-approve",
-	"ong-transferfrom", "ont-balanceof", "neo-put", "neo-put-empty", "neo-destroy", "neo-dead",
+	"ong-transferfrom", "ont-balanceof", "ont-transfer-all", "ong-transfer-all", "ong-transferfrom-all", "ont-approve-zero",
+	"neo-delete-first", "neo-delete-missing", "neo-delete-then-put", "neo-put", "neo-put-empty", "neo-destroy", "neo-dead",
 	"neo-create", "param-set", "param-snapshot", "param-set-snapshot", "neo-garbage", "neo-empty", "neo-loop", "wasm-invoke",
 }
 var deployKinds = []string{"deploy-neo", "deploy-wasm", "deploy-neo-wasm-magic"}
@@ -80,6 +82,24 @@ func (c *chain) nativeRaw(contract common.Address, method string, args []byte, s
 	return m.IntoImmutable()
 }
 
+// balanceOf reads a native token balance through a balanceOf pre-execution (0 on any error).
+func (c *chain) balanceOf(token, who common.Address) uint64 {
+	t, err := c.nativeTx(token, "balanceOf", []interface{}{who[:]}, nil)
+	if err != nil {
+		return 0
+	}
+	res, err := c.k.Store().PreExecuteContract(t)
+	if err != nil || res == nil {
+		return 0
+	}
+	hs, _ := res.Result.(string)
+	raw, err := hex.DecodeString(hs)
+	if err != nil {
+		return 0
+	}
+	return common.BigIntFromNeoBytes(raw).Uint64()
+}
+
 // mkTx builds the transaction of a step. Deterministic in (kind, a) on a given chain.
 func (c *chain) mkTx(kind string, a uint64) (*built, error) {
 	k := c.k
@@ -119,6 +139,31 @@ func (c *chain) mkTx(kind string, a uint64) (*built, error) {
 		// within the allowance the bookkeeper approved to users[0] in block 1
 		st := ont.NewTransferFromState(c.users[0].Address, k.Acct.Address, other.Address, 1+a%1000)
 		t, err := c.nativeTx(ledgerkit.OngAddr, "transferFrom", []interface{}{st}, c.users[0])
+		return wrap(t, err, true)
+	case "ont-transfer-all":
+		// the sender's entire balance: reduceFromBalance deletes the from-key before anything is put
+		t, err := k.TransferTx(ledgerkit.OntAddr, user, other.Address, c.balanceOf(ledgerkit.OntAddr, user.Address), 0, 20000)
+		return wrap(t, err, true)
+	case "ong-transfer-all":
+		t, err := k.TransferTx(ledgerkit.OngAddr, user, other.Address, c.balanceOf(ledgerkit.OngAddr, user.Address), 0, 20000)
+		return wrap(t, err, true)
+	case "ong-transferfrom-all":
+		// the entire allowance: fromApprove deletes the approve key
+		st := ont.NewTransferFromState(c.users[0].Address, k.Acct.Address, other.Address, 1_000_000_000)
+		t, err := c.nativeTx(ledgerkit.OngAddr, "transferFrom", []interface{}{st}, c.users[0])
+		return wrap(t, err, true)
+	case "ont-approve-zero":
+		t, err := c.nativeTx(ledgerkit.OntAddr, "approve", []interface{}{&ont.TransferState{From: user.Address, To: other.Address, Value: 0}}, user)
+		return wrap(t, err, true)
+	case "neo-delete-first":
+		t, err := c.signedInvoke(neoDelCall(c.neoDel, [][]byte{[]byte("k0"), []byte("k1")}[a%2], nil, false), nil, 0, 0)
+		return wrap(t, err, true)
+	case "neo-delete-missing":
+		t, err := c.signedInvoke(neoDelCall(c.neoDel, []byte("nokey"), nil, false), nil, 0, 0)
+		return wrap(t, err, true)
+	case "neo-delete-then-put":
+		code := append(neoDelCall(c.neoDel, []byte("k0"), nil, false), neoDelCall(c.neoDel, []byte("k1"), []byte("again"), true)...)
+		t, err := c.signedInvoke(code, nil, 0, 0)
 		return wrap(t, err, true)
 	case "ont-balanceof":
 		t, err := c.nativeTx(ledgerkit.OntAddr, "balanceOf", []interface{}{user.Address[:]}, nil)
